@@ -13,6 +13,7 @@ Dev(e) ==
     IF e.ev = "step" /\ Dev_RemoveTypeNonLastPanics(e) THEN "Dev_RemoveTypeNonLastPanics"
     ELSE IF e.ev = "step" /\ Dev_TwoWayHalfAdded(e) THEN "Dev_TwoWayHalfAdded"
     ELSE IF e.ev = "step" /\ Dev_InvalidNullableKindAccepted(e) THEN "Dev_InvalidNullableKindAccepted"
+    ELSE IF e.ev = "step" /\ Dev_RemoveKeepsHandKeyedField(e) THEN "Dev_RemoveKeepsHandKeyedField"
     ELSE IF e.ev = "check" /\ Dev_CheckIgnoresInverseTarget(e) THEN "Dev_CheckIgnoresInverseTarget"
     ELSE "NONE"
 
